@@ -39,6 +39,7 @@ TTransform ==
        /\ Chk("new_variable_named_after_original", Ev.new_name = TName("x"))
        /\ Chk("original_value_unchanged_by_transformation", CloseSeq(Ev.orig_value, Ev.leaves.x))
        /\ Chk("new_value_is_inverse_image", CloseSeq(Ev.new_value, Ev.leaves.t))
+       /\ Chk("model_with_the_transformed_variable_can_be_deep_copied", Ev.copy_ok)
        /\ Chk("per_obs_setting_moves_with_the_distribution",
               Ev.new_per_obs = Hdr.per_obs /\ (~Hdr.per_obs => Ev.new_lp_scalar))
        /\ Chk("new_log_density_is_original_at_b_t_plus_log_det_jacobian",
